@@ -465,6 +465,64 @@ func TestLbvcScenarioRetentionOnLog(t *testing.T) {
 		}
 		cleanup()
 	}
+	// the age limit measures a segment's LAST write, on the live log as on a reopened one: segments of two messages with
+	// given timestamps (they may step back inside a segment: reception times of two leaders), cut-off 50
+	for _, ts := range [][]int64{{100, 10, 100, 100}, {10, 100, 100, 100}, {10, 20, 30, 100, 100, 100}, {100, 10, 10, 100, 100, 100}, {60, 40, 40, 60, 100, 100}} {
+		for _, reopen := range []bool{false, true} {
+			dir, err := os.MkdirTemp("", "lbvc-age-")
+			if err != nil {
+				t.Skip(err)
+			}
+			size := int64(0)
+			{
+				probe, cl := lbvcLog(t, Options{MaxSegmentBytes: 1 << 20})
+				m := lbvcMsg(0, 0)
+				probe.Append([]*Message{m})
+				size = probe.activeSegment().Position()
+				cl()
+			}
+			open := func() *commitLog {
+				l, err := New(Options{Path: dir, MaxSegmentBytes: 2 * size, MaxLogAge: time.Hour})
+				if err != nil {
+					t.Skipf("cannot create log: %v", err)
+				}
+				return l.(*commitLog)
+			}
+			l := open()
+			for i, x := range ts {
+				m := lbvcMsg(0, 0)
+				m.Timestamp = x
+				m.Key, m.Value = []byte("k0"), []byte(fmt.Sprintf("value-%d", i%10))
+				l.Append([]*Message{m})
+			}
+			if reopen {
+				l.Close()
+				l = open()
+			}
+			segs := l.Segments()
+			// oracle: drop the maximal prefix of segments whose last message is older than the cut-off, never the newest
+			wantOldest := int64(0)
+			for i := 0; i+1 < len(segs); i++ {
+				lastTs := ts[segs[i+1].BaseOffset-1]
+				if lastTs >= 50 {
+					break
+				}
+				wantOldest = segs[i+1].BaseOffset
+			}
+			saved := computeTTL
+			computeTTL = func(time.Duration) int64 { return 50 }
+			err = l.Clean()
+			computeTTL = saved
+			desc := fmt.Sprintf("message timestamps %v in segments of two, age cut-off 50, log %s", ts, map[bool]string{false: "as written by this process", true: "closed and reopened before the clean"}[reopen])
+			if err != nil {
+				problems = append(problems, desc+": "+err.Error())
+			} else if got := l.OldestOffset(); got != wantOldest {
+				problems = append(problems, fmt.Sprintf("%s: oldest offset %d afterwards; going by each segment's last write the expired prefix ends at %d", desc, got, wantOldest))
+			}
+			l.Close()
+			os.RemoveAll(dir)
+		}
+	}
 	lbvcScenarioTail(t, problems)
 }
 
